@@ -207,6 +207,8 @@ def run(ctx):
     r4.check(restr, scon + "::restriction", "shown table = {k: v for k, v in table.items() if k in matches} (statuses untouched)",
              "the shown table is not the plain restriction of the computed table to the matching targets", st.where)
     # filters semantics
+    from .shared import rule_name_selection
+    rule_name_selection(ctx, r4, "the rows of `gwf status PATTERN...` (the name filter may receive the one-shot result of a previous filter)")
     sf = idx.func("gwf.filtering:StatusFilter.predicate")
     r4.check(any(ast.unparse(n.value).replace(" ", "") == "self.status_provider(target)inself.status" for n in walk_no_nested(sf.node) if isinstance(n, ast.Return)),
              f"{sf.module.relpath}::{sf.qual}", "status filter keeps targets whose status is one of the requested", "StatusFilter.predicate changed polarity or source", sf.where)
